@@ -34,6 +34,17 @@ pub fn totality_case(w: &World, kind: usize, x: &str) -> Vec<(String, String)> {
         }
         Ok(f) => Some(f),
     };
+    // shape laws on the constructor's result: one character type per character, equal to the type
+    // of that character whatever markup surrounded it; one boundary fewer than characters; no scores
+    if let Some(Some(f)) = &fresh {
+        let n = f.text.chars().count();
+        if f.types.len() != n || f.text.chars().zip(&f.types).any(|(c, &t)| vaporetto::CharacterType::get_type(c) as u8 != t) {
+            out.push((format!("shape-char-types from_{}", names[kind]), format!("from_{}({x:?}): character types {:?} do not describe the text {:?}", names[kind], f.types, f.text)));
+        }
+        if f.boundaries.len() + 1 != n || !f.scores.is_empty() {
+            out.push((format!("shape-boundaries from_{}", names[kind]), format!("from_{}({x:?}): {} boundaries / {} scores for {n} characters", names[kind], f.boundaries.len(), f.scores.len())));
+        }
+    }
     for prior in 0..2 {
         let r = guard(|| {
             let mut s = if prior == 0 { Sentence::default() } else { rich_state(w) };
